@@ -128,7 +128,8 @@ def shell_model(draw, force=None, max_ports=6, collide=False):  # pylint: disabl
         if ('nested_enum' in feats and i == 0) or 'mc_ready' in feats or \
                 draw(st.integers(0, 3)) == 0:
             taken = set()
-            tn = draw(st.sampled_from(pool_for(['Result', 'Status', 'E'])))
+            tn = draw(st.sampled_from([x for x in pool_for(['Result', 'Status', 'E', 'Kind'])
+                                       if x != nm]))  # a member type may not be named like its class
             itf['types'].append({'k': 'enum', 'name': [tn], 'fields': [
                 _uniq(draw, FIELD_POOL, taken) for _ in range(draw(st.integers(1, 3)))]})
         interfaces.append((sc, itf))
@@ -167,7 +168,8 @@ def shell_model(draw, force=None, max_ports=6, collide=False):  # pylint: disabl
             out.append({'kind': e['k'], 'fqn': fqn, 'elem': e})
             if e['k'] == 'interface':
                 for t in e['types']:
-                    out.append({'kind': t['k'], 'fqn': fqn + tuple(t['name']), 'elem': t})
+                    out.append({'kind': t['k'], 'fqn': fqn + tuple(t['name']), 'elem': t,
+                                'owner': fqn})
         return out
 
     def choose_ref(kinds, from_scope, prefer_partial):
@@ -177,6 +179,8 @@ def shell_model(draw, force=None, max_ports=6, collide=False):  # pylint: disabl
         for d in all_d:
             if d['kind'] not in kinds or d['elem'].get('distractor'):
                 continue
+            if d.get('owner') is not None and tuple(d['owner']) != tuple(from_scope):
+                continue  # types nested in another interface are not referenced (C++ order)
             for sp in spellings(d['fqn'], from_scope):
                 found = lookup(all_d, sp, from_scope)
                 if len(found) == 1 and found[0] is d:
